@@ -196,6 +196,10 @@ def c15Step (s : St) (line : String) : St × String :=
   | some (w, out) => ({ s with world := w }, out)
   | none =>
   match toks with
+  | ["preset", id] =>
+    -- the Go side switches the preset the containers are built with; the record model needs no preset: every
+    -- vector's geometry is read off the bytes the struct side reports
+    if s.key != "" || !(id == "minimal" || id == "odd") then bad else (s, "ok")
   | "new" :: key :: rest =>
     let parsed := rest.mapM (fun t =>
       match t.splitOn "=" with
